@@ -16,6 +16,16 @@ fn setup(name: &str, depth: usize, rewinds: u32, wall: f64) -> (crate::universe:
     let (u, mut cfg) = crate::c01::setup(name, depth, rewinds, wall);
     cfg.with_client = true;
     cfg.with_rewind_state = true;
+    // subtree roots give the wallet shard metadata: without it update_chain_tip takes the linear
+    // (Historic) path only and never creates ChainTip / Verify ranges
+    cfg.with_roots = true;
+    graph::TRACK_QUEUE_PRIORITIES.store(true, std::sync::atomic::Ordering::Relaxed);
+    if name == "tiny" {
+        // a tip exactly PRUNING_DEPTH (100) above the end of S3: with the maximum scanned height at
+        // FIRST+4 / +3 / +5 this is the zero-length Verify range, one block of Verify, and the
+        // steady-state ChainTip case of update_chain_tip (`max_scanned > stable_height`)
+        cfg.tips.insert(0, crate::universes::FIRST + 104);
+    }
     // The property quantifies over scans of *suggested* ranges, tip updates and rewinds: free scans
     // of ranges the wallet did not suggest (e.g. beyond the tip it knows) are outside its domain.
     cfg.free_scans = false;
@@ -45,7 +55,8 @@ pub fn run(args: &Args) -> i32 {
          SQLite wallet with operations ClientStep(first suggested range, from start|end, chunk 1|half|all), Tip(h), RewindToChainState(h), Rewind(h)+switch \
          branch; states matched on a canonical logical dump + reference model; a state is non-trivial when reached by at least one operation and distinct by that key",
     );
-    run.assume("the priority of a height is Scanned exactly when its block is in the wallet on the current chain; FoundNote / OpenAdjacent extensions are not constrained beyond the structural invariant");
+    run.assume("the priority of a height is Scanned exactly when its block is in the wallet on the current chain");
+    run.assume("wallet-level priorities: after every operation the queue must equal, height by height, the documented insertions of that operation (scan_complete: Scanned over the scanned range; update_chain_tip: the tip-shard ChainTip range and the Historic / ChainTip / Verify connecting range as its comments define them; truncate_to_height: everything above the achieved height dropped; rewind_to_chain_state: dropped above the deepest checkpoint at or above max(target, pruning floor), then a forced Historic range above the target) applied through the documented dominance table to the queue before it; the FoundNote extension of scan_complete (which heights complete the shards of discovered notes) is not modelled: an unscanned height outside the scanned range may be FoundNote wherever the dominance rule yields FoundNote there");
     spanning::explore(&run);
     let plan: Vec<(&str, usize, u32, f64)> = match args.tier {
         Tier::Quick => vec![("tiny", 14, 1, 26.0)],
